@@ -356,14 +356,14 @@ func c15d(c *Ctx) {
 	}
 	// (4) explicit texts: IsGlobal = (Scope == GLOBAL)
 	if fn := c.Fn("parser.Parser.ParseProgram"); fn != nil {
-		as := allocsOf(fn, "ast", "Text")
+		as := c.builtTexts(fn)
 		if len(as) == 0 {
 			c.Bad("ParseProgram/Text.IsGlobal", c.W.FuncPos(fn), "ParseProgram no longer builds ast.Text values")
 		}
 		for i, a := range as {
-			got := c.fieldAtUse(fn, a, "IsGlobal", lastUse(a))
+			got := a.f["IsGlobal"]
 			ok := strings.HasSuffix(got, `.Scope == "GLOBAL")`)
-			c.Check(ok, fmt.Sprintf("ParseProgram/Text#%d.IsGlobal", i), c.W.Pos(a.Pos()), "IsGlobal = "+got, "explicit text IsGlobal is "+got+", expected (<text statement>.Scope == GLOBAL)")
+			c.Check(ok, fmt.Sprintf("ParseProgram/Text#%d.IsGlobal", i), a.pos, "IsGlobal = "+got, "explicit text IsGlobal is "+got+", expected (<text statement>.Scope == GLOBAL)")
 		}
 	}
 	// (5) labels inside scripts (the node may be built in place or by a constructor helper)
